@@ -2,7 +2,7 @@
    => the file holds the table", so a flush followed by a restart gives back
    exactly the table; the oracle of the correspondence check accepts the model. *)
 From Coq Require Import ZArith List Bool Lia.
-From V Require Import Bytes StrGo BytesLemmas Route RouteProofs C18Users C18Tables.
+From V Require Import Bytes StrGo BytesLemmas CanonProofs Route RouteProofs C18Users C18Tables.
 Import ListNotations.
 Open Scope Z_scope.
 
@@ -471,7 +471,13 @@ Proof.
     + split; [reflexivity|split; [discriminate|split; [exact user_default_stable|discriminate]]].
 Qed.
 
-(* routes: the pattern of every Save must be stable under CanonicalPath (known finding) *)
+(* routes: the pattern of every Save must be stable under CanonicalPath — since the repair
+   "CanonicalPath is idempotent" (CanonProofs.canonical_path_idem) that holds for every pattern *)
+Lemma canon_stable_all p : canon_stable p = true.
+Proof. unfold canon_stable. apply bytes_eqb_eq. apply canonical_path_idem. Qed.
+Lemma rop_wf_all ops : forallb rop_wf ops = true.
+Proof. apply forallb_forall. intros o _. destruct o; cbn; auto using canon_stable_all. Qed.
+
 Section RouteInstance.
   Variable url_ok : bytes -> bool.
   Let R := route_ops url_ok.
@@ -503,20 +509,19 @@ Section RouteInstance.
   Proof. cbn. constructor. Qed.
 
   Theorem routes_flush_restart_exact ops sd :
-    forallb rop_wf ops = true -> inv R sd ->
+    inv R sd ->
     m_tab (fst (fst (mrun R sd (ops ++ [MFlush; MRestart])))) = m_tab (fst (fst (mrun R sd ops))).
   Proof.
-    intros W I.
+    intros I. pose proof (rop_wf_all ops) as W.
     apply (flush_restart_exact R (fun r => canon_stable (r_pat r)) route_save_stable route_del_stable route_default_stable).
     - rewrite <- W. apply forallb_ext_l. intros o. destruct o; reflexivity.
     - exact I.
   Qed.
 
   Theorem routes_model_passes ops :
-    forallb rop_wf ops = true ->
     ok_hist R (restart R None, None) ops (snd (mrun R (restart R None, None) ops)) = true.
   Proof.
-    intros W.
+    pose proof (rop_wf_all ops) as W.
     apply (model_passes R (fun r => canon_stable (r_pat r)) route_save_stable route_del_stable route_default_stable route_eqb_refl).
     - rewrite <- W. apply forallb_ext_l. intros o. destruct o; reflexivity.
     - apply inv_start. exact route_default_stable.
